@@ -154,6 +154,7 @@ package measurements
 // ---------------------------------------------------------------------------------------------
 //@ type SimpleMovingVariance
 //@   guarded mu: stdev, normalized
+//@   subobjects mu: average, variance
 //@   immutable: average, variance
 //@   inv[C18] parts: this.average != nil && this.variance != nil && this.average != this.variance && inv(this.average) && inv(this.variance)
 //@   inv[C18] nonneg: this.variance.value >= 0.0
@@ -179,8 +180,13 @@ package measurements
 // ---------------------------------------------------------------------------------------------
 //@ type WindowlessMovingPercentile
 //@   guarded mu: value, delta, seenCount
+//@   subobjects mu: deltaState
 //@   immutable: p, deltaInitial, deltaState
 //@   inv[C18] parts: this.deltaState != nil && inv(this.deltaState)
+
+//@ func (*WindowlessMovingPercentile).add
+//@   requires locked: held(m.mu)
+//@   owns[C17]
 
 //@ func (*WindowlessMovingPercentile).Reset
 //@   maintains[C18] m
